@@ -151,6 +151,7 @@ type cpuCase struct {
 	mem   map[uint32]byte
 	tag   string
 	opcode int
+	ops   string // one letter per entry of the history: S = Step, R = Reset, I = TriggerIRQ ("" = all S)
 }
 
 func widthOf(name string) int {
@@ -349,8 +350,43 @@ func genCase(r *cpuRng, id int, opcode int, names []string, multi bool) cpuCase 
 		if c.tag == "" {
 			c.tag = "multi"
 		}
+		// a third of the multi-step cases are HISTORIES: Reset() and TriggerIRQ() calls between the steps
+		// (C12: the stop flag lasts until Reset; C02: the two interpreters agree on these entry points too)
+		if r.n(3) == 0 {
+			ops := make([]byte, c.steps)
+			for i := range ops {
+				switch k := r.n(12); {
+				case k == 0:
+					ops[i] = 'R'
+				case k <= 2:
+					ops[i] = 'I'
+				default:
+					ops[i] = 'S'
+				}
+			}
+			ops[0] = 'S'
+			c.ops = string(ops)
+			c.tag = "history"
+			if r.n(2) == 0 {
+				// the history starts by executing STP: the stop condition must then last exactly until the next Reset
+				c.mem[rk<<16|pc] = 0xDB
+				c.opcode = 0xDB
+				c.tag = "history-stp"
+				if c.steps > 3 && r.n(2) == 0 {
+					ops[2+r.n(c.steps-2)] = 'R'
+					c.ops = string(ops)
+				}
+			}
+		}
 	}
 	return c
+}
+
+func (c *cpuCase) opAt(i int) byte {
+	if c.ops == "" || i >= len(c.ops) {
+		return 'S'
+	}
+	return c.ops[i]
 }
 
 func (c *cpuCase) line(names []string) string {
@@ -376,6 +412,9 @@ func (c *cpuCase) line(names []string) string {
 	for _, a := range c.onpc {
 		fmt.Fprintf(&sb, " %d", a)
 	}
+	if c.ops != "" {
+		sb.WriteString(" O " + c.ops)
+	}
 	return sb.String()
 }
 
@@ -388,6 +427,7 @@ type cpuStepRes struct {
 	stopped  bool
 	regs     []uint64
 	trace    []cpuEv
+	op       byte // 0 = Step, 'R' = Reset, 'I' = TriggerIRQ
 }
 
 func (s *cpuStepRes) line(id, step int) string {
@@ -399,7 +439,11 @@ func (s *cpuStepRes) line(id, step int) string {
 	if s.stopped {
 		st = 1
 	}
-	fmt.Fprintf(&sb, "%d %d OK %d %d R", id, step, s.cycles, st)
+	if s.op != 0 {
+		fmt.Fprintf(&sb, "%d %d %c %d %d R", id, step, s.op, s.cycles, st)
+	} else {
+		fmt.Fprintf(&sb, "%d %d OK %d %d R", id, step, s.cycles, st)
+	}
 	for _, v := range s.regs {
 		fmt.Fprintf(&sb, " %d", v)
 	}
@@ -468,7 +512,16 @@ func (r *run65) run(c *cpuCase, names []string) []cpuStepRes {
 					res.pmsg = fmt.Sprint(e)
 				}
 			}()
-			res.cycles, res.stopped = r.cpu.Step()
+			switch c.opAt(i) {
+			case 'R':
+				r.cpu.Reset()
+				res.op = 'R'
+			case 'I':
+				r.cpu.TriggerIRQ()
+				res.op = 'I'
+			default:
+				res.cycles, res.stopped = r.cpu.Step()
+			}
 		}()
 		if !res.panicked {
 			res.regs = cpuGetFields(root, names)
@@ -525,7 +578,16 @@ func (r *runAlt) run(c *cpuCase, names []string) []cpuStepRes {
 					res.pmsg = fmt.Sprint(e)
 				}
 			}()
-			res.cycles, res.stopped = r.cpu.Step()
+			switch c.opAt(i) {
+			case 'R':
+				r.cpu.Reset()
+				res.op = 'R'
+			case 'I':
+				r.cpu.TriggerIRQ()
+				res.op = 'I'
+			default:
+				res.cycles, res.stopped = r.cpu.Step()
+			}
 		}()
 		if !res.panicked {
 			res.regs = cpuGetFields(root, names)
@@ -596,6 +658,21 @@ func cpuCasesCmd(args []string) int {
 					if stats["c08_panic"] <= 5 {
 						fmt.Printf("FAIL C08 case=%d step=%d interp=%d opcode=%02x panic=%s\n", c.id, i, which, cpuOpcodeAt(&c), s.pmsg)
 					}
+				} else if s.op != 0 {
+					// Reset / TriggerIRQ: C12 "until the CPU is reset": Reset clears the stop condition, TriggerIRQ keeps it
+					if iStop >= 0 {
+						prev := c.regs[iStop]
+						if i > 0 {
+							prev = rs[i-1].regs[iStop]
+						}
+						if (s.op == 'R' && s.regs[iStop] != 0) || (s.op == 'I' && s.regs[iStop] != prev) {
+							stats["c12_reset"]++
+							if stats["c12_reset"] <= 5 {
+								fmt.Printf("FAIL C12 case=%d step=%d interp=%d op=%c Stopped %d -> %d (Reset must clear the stop condition, TriggerIRQ must keep it) history=%s\n",
+									c.id, i, which, s.op, prev, s.regs[iStop], c.ops)
+							}
+						}
+					}
 				} else if s.cycles < 1 {
 					stats["c12_cycles"]++
 					if stats["c12_cycles"] <= 5 {
@@ -606,6 +683,25 @@ func cpuCasesCmd(args []string) int {
 					prev := c.regs[iAll]
 					if i > 0 {
 						prev = rs[i-1].regs[iAll]
+					}
+					prevStop := c.regs[iStop]
+					if i > 0 {
+						prevStop = rs[i-1].regs[iStop]
+					}
+					// the stop condition is reported from the moment a STP has executed, and never before: the flag
+					// never falls in a Step, and it rises only in a Step that read a $DB byte (the STP opcode)
+					sawSTP := false
+					for _, e := range s.trace {
+						if e.kind == 0 && !e.w && e.v == 0xDB {
+							sawSTP = true
+						}
+					}
+					if (prevStop != 0 && !s.stopped) || (prevStop == 0 && s.stopped && !sawSTP) {
+						stats["c12_stopflag"]++
+						if stats["c12_stopflag"] <= 5 {
+							fmt.Printf("FAIL C12 case=%d step=%d interp=%d opcode=%02x Stopped before=%d reported=%v STP-fetched=%v history=%s\n",
+								c.id, i, which, cpuOpcodeAt(&c), prevStop, s.stopped, sawSTP, c.ops)
+						}
 					}
 					if s.regs[iAll] != prev+uint64(s.cycles) || s.stopped != (s.regs[iStop] != 0) {
 						stats["c12_account"]++
